@@ -122,8 +122,8 @@ fn decode_body(ctx: &Ctx, idx: u64) -> Report {
     let mut report = Report::default();
     let mut rng = ChaCha8Rng::seed_from_u64(sseed(ctx, "decode", idx));
     let hostile = Hostile::new();
-    let n = ctx.tier.pick(4_000, 400_000);
-    let sweeps = ctx.tier.pick(6, 300);
+    let n = ctx.tier.pick(20_000, 400_000);
+    let sweeps = ctx.tier.pick(30, 300);
     let info = replay_info("C14", "decode", ctx, idx);
 
     // Calibration on valid traffic (also keeps the thresholds honest: a valid maximum-size
@@ -221,12 +221,12 @@ pub fn check(tier: Tier) -> Check {
         deciding: vec!["C14"],
         streams: vec![Stream::new("decode", tier.pick(16, 64), decode_scenario).supervised(tier.pick(300.0, 1800.0))],
         require: vec![
-            ("decode_rejected", tier.pick(20_000, 1_000_000)),
-            ("decoded_ok", tier.pick(1_000, 50_000)),
-            ("class_HugeLength", tier.pick(5_000, 200_000)),
-            ("class_Nesting", tier.pick(5_000, 200_000)),
-            ("class_Truncation", tier.pick(5_000, 200_000)),
-            ("systematic_sweeps", tier.pick(30, 3_000)),
+            ("decode_rejected", tier.pick(100_000, 5_000_000)),
+            ("decoded_ok", tier.pick(5_000, 200_000)),
+            ("class_HugeLength", tier.pick(20_000, 500_000)),
+            ("class_Nesting", tier.pick(20_000, 500_000)),
+            ("class_Truncation", tier.pick(20_000, 500_000)),
+            ("systematic_sweeps", tier.pick(100, 3_000)),
         ],
         exhaustive: false,
     }
